@@ -223,6 +223,25 @@ def r18_3(ctx: Ctx, E: Effects, rule="R18.3"):
             if call_name(c) == "Atom" and len(c.args) == 2:
                 ctx.ob(rule, f, c, "copy" not in norm(c.args[1]),
                        "the coordinate atom is passed to the view as is", node=c)
+    # integer indexing pairs topology atom i with the i-th coordinate atom: residue of atom i, and its position inside it
+    from ..pat import find as pfind3
+    gi = ctx.func("Molecule.__getitem__")
+    ip = [p_ for p_ in gi.params if p_ != "self"][0]
+    okg = False
+    rr = pfind3(gi.node, "V_r = self._each_atom_resid[%s]" % ip)
+    if rr:
+        rv = rr[0][1]["V_r"]
+        aa = pfind3(gi.node, "V_a = sum((V_i == %s for V_i in self._each_atom_resid[:%s]))" % (rv, ip))
+        if aa:
+            av = aa[0][1]["V_a"]
+            okg = bool(pfind3(gi.node, "Atom(self._molecule_top[%s], self._residues[%s][%s])" % (ip, rv, av)))
+    ctx.ob(rule, gi, "atom lookup in Molecule.__getitem__", okg,
+           "atom i is (topology atom i, coordinate atom number 'atoms of the same residue before i' of the residue that atom i "
+           "belongs to)", node=gi.node)
+    mi = ctx.func("Molecule.__init__")
+    oke = bool(pfind3(mi.node, "self._each_atom_resid += [V_k] * len(V_res)"))
+    ctx.ob(rule, mi, "per-atom residue index table", oke,
+           "the per-atom residue table holds the residue's position once per atom of that residue, in order", node=mi.node)
     atom = ctx.repo.cls("Atom")
     R = E.R
     for attr, want in (("position", "AtomGro"), ("velocity", "AtomGro"), ("atomid", "AtomGro")):
